@@ -91,6 +91,14 @@ def mk_step(I, recipe, idx, to, frm=None, trash=False, discards=False, book=True
         # BOOK (from C17's contract of remove + the trash obligation of bake): a discarding step only takes away, so if
         # its trash record is empty, every cell of its destination is unchanged
         from pyvc.symcoll import WS as _WS
+        # Sigma-lin instance (lemmas/Sigma.lean WS_lin; its antecedent is the pointwise BOOK fact just assumed): the totals of
+        # the trash record in every measure = what the cells of the destination lost
+        old_tag = I.cur_tag
+        I.cur_tag = 'sigma'
+        for k_ in _WS:
+            I.assume(_WS[k_](tr.amt) == z3.Sum([_WS[k_](a.fields['contents'].amt) - _WS[k_](b.fields['contents'].amt)
+                                               for a, b in zip(cells(to[0]), cells(to[1]))] + [z3.RealVal(0)]))
+        I.cur_tag = old_tag
         nonempty = tr.sym_truth(I)
         for a, b in zip(cells(to[0]), cells(to[1])):
             for k_ in _WS:
@@ -184,6 +192,8 @@ def tasks(tier, pid):
                 for obj in ('A', 'P', 'B'):
                     for unit in ('uL', 'mg'):
                         t.append(('flows', sc, tf, obj, unit))
+        for unit in ('uL', 'mg', 'mmol'):
+            t.append(('flows_induction', unit))
     t.append(('canaries',))
     return t
 
@@ -281,33 +291,64 @@ def generic_step(I, shape):
 
 def induction_loop(I, contribution, total_name='TOTAL'):
     """Handler for `for step in <steps of the timeframe>` over a step list of ARBITRARY length.  The loop is cut by the
-    invariant  acc == PS(k)  where PS(0) = 0 and PS(k+1) = PS(k) + contribution(step k): init and step are obligations
-    (the step for one arbitrary record per shape, every variable the body assigns havocked), and after the loop
-    acc == PS(n) =: TOTAL.  `contribution(step)` is the SPECIFIED contribution of one step (from the property)."""
+    invariant  acc == PS_acc(k)  for every accumulator the loop carries (one number, or the numeric entries of one dict),
+    where PS(0) = 0 and PS(k+1) = PS(k) + contribution(step k): init and step are obligations (the step for one
+    arbitrary record per shape, every variable the body assigns havocked), and after the loop acc == PS(n) =: TOTAL.
+    `contribution(interp, step)` is the SPECIFIED contribution of one step (from the property): {accumulator key: term},
+    key None for a plain numeric accumulator."""
     from pyvc import loops as L
-    PS = z3.Function('PS!' + total_name, IS, RS)
-    TOTAL = z3.Real(total_name)
+    PS, TOTAL = {}, {}
+
+    def ps(key):
+        if key not in PS:
+            PS[key] = z3.Function(f'PS!{total_name}!{key}', IS, RS)
+            TOTAL[key] = z3.Real(f'{total_name}!{key}' if key is not None else total_name)
+        return PS[key]
 
     def handler(interp, st, env, lst, sl):
-        carried = sorted(n for n in L.assigned_names(st) if env.has(n) and n != getattr(st.target, 'id', None))
-        nums = [n for n in carried if is_num(env.lookup(n)) and not isinstance(env.lookup(n), bool)]
-        if len(nums) != 1 or len(carried) != 1:
-            raise Unsupported(f"step loop carrying {carried} (the induction handles one numeric accumulator)")
-        acc = nums[0]
+        carried = sorted(n for n in L.assigned_targets(st) if '[' not in n and '.' not in n
+                         and env.has(n) and n != getattr(st.target, 'id', None))
+        for t in L.assigned_targets(st):
+            if '[' in t:
+                base = t.split('[')[0]
+                if env.has(base) and base not in carried:
+                    carried.append(base)
+        if len(carried) != 1:
+            raise Unsupported(f"step loop carrying {carried} (the induction handles one accumulator variable)")
+        var = carried[0]
+        v0 = env.lookup(var)
+        if isinstance(v0, dict) and v0 and all(isinstance(k_, str) and is_num(x) and not isinstance(x, bool) for k_, x in v0.items()):
+            keys = list(v0)
+        elif is_num(v0) and not isinstance(v0, bool):
+            keys = [None]
+        else:
+            raise Unsupported(f"step loop accumulating into {type(v0).__name__}")
         name = f"inv[step-loop@{interp.call_stack[-1] if interp.call_stack else '?'}]"
-        interp.assume(PS(0) == 0)
-        interp.oblige(name + '.init', real(env.lookup(acc)) == PS(0), 'property', lineno=st.lineno)
+
+        def cur(key):
+            v = env.lookup(var)
+            return real(v if key is None else v[key])
+        for key in keys:
+            interp.assume(ps(key)(0) == 0)
+            interp.oblige(name + '.init', cur(key) == ps(key)(0), 'property', lineno=st.lineno)
         shapes = interp.__dict__['_step_shapes']
         choice = interp.choose(len(shapes) + 1, f"loop@{st.lineno} exit / iteration on a step of each shape")
         L.havoc(interp, st, env)
+        if keys == [None]:
+            env.set(var, fresh(var, RS))
+        else:
+            env.set(var, {key: fresh(f'{var}_{key}', RS) for key in keys})
         if choice > 0:
             k = fresh('k', IS)
             interp.assume(k >= 0)
-            interp.assume(real(env.lookup(acc)) == PS(k))
+            for key in keys:
+                interp.assume(cur(key) == ps(key)(k))
             g = generic_step(interp, shapes[choice - 1])
-            interp.__dict__['_generic_step'] = g
-            instantiate_facts(interp, interp.__dict__['_queried'])
-            interp.assume(PS(k + 1) == PS(k) + contribution(interp, g))
+            if interp.__dict__.get('_queried') is not None:
+                instantiate_facts(interp, interp.__dict__['_queried'])
+            contrib = contribution(interp, g)
+            for key in keys:
+                interp.assume(ps(key)(k + 1) == ps(key)(k) + contrib[key])
             interp.assign(st.target, g, env)
             try:
                 interp.exec_block(st.body, env)
@@ -316,11 +357,18 @@ def induction_loop(I, contribution, total_name='TOTAL'):
             except BreakEx:
                 interp.oblige(name + '.no-break', False, 'property', lineno=st.lineno)
                 raise PathEnd()
-            interp.oblige(name + '.step', real(env.lookup(acc)) == PS(k + 1), 'property', lineno=st.lineno)
+            v = env.lookup(var)
+            ok_shape = (is_num(v) and keys == [None]) or (isinstance(v, dict) and list(v) == keys)
+            if not ok_shape:
+                interp.oblige(name + '.step', False, 'property', lineno=st.lineno)
+                raise PathEnd()
+            for key in keys:
+                interp.oblige(name + '.step', cur(key) == ps(key)(k + 1), 'property', lineno=st.lineno)
             raise PathEnd()
-        interp.assume(real(env.lookup(acc)) == TOTAL)
+        for key in keys:
+            interp.assume(cur(key) == TOTAL[key])
         interp.exec_block(st.orelse, env)
-    return handler, TOTAL
+    return handler, TOTAL, ps
 
 
 def run_used_induction(pid, dest, k, unit):
@@ -353,8 +401,10 @@ def run_used_induction(pid, dest, k, unit):
             for n in dnames:
                 for pre, post in touched(g, n):
                     c = c + amount(post, s) - amount(pre, s)
-            return c + g.trash_amt(s)
-        handler, TOTAL = induction_loop(I, contribution)
+            return {None: c + g.trash_amt(s)}
+        handler, TOTALS, ps = induction_loop(I, contribution)
+        ps(None)
+        TOTAL = TOTALS[None]
         I.__dict__.setdefault('list_loop_handlers', {})['list:steps'] = handler
         dests = 'plates' if dest == 'plates' else [results[n] for n in dnames]
         I.writes.clear()
@@ -387,6 +437,76 @@ def run_used_induction(pid, dest, k, unit):
     if not any(x['verdict'] == 'unsupported' for x in res) and n_step == 0:
         res.append(vc.unsupported_result(name + 'unsupported', case, 'the step loop was never reached (no induction step generated)'))
     return native_refute_unknowns(res, used_replay(k, unit, 'undecided clauses'))
+
+
+def run_flows_induction(pid, unit):
+    """get_container_flows of a CONTAINER over a step list of arbitrary length: induction over the step loop with the two
+    accumulators flows['in'], flows['out'] (per-well arrays of a plate are outside this induction: the plate cases stay
+    with the 1..3-record scenarios)."""
+    from pyvc.symcoll import SymList
+    res = []
+    case = f"any-number-of-steps|A|{unit}"
+    name = f'{pid}/Recipe.get_container_flows/'
+
+    def body(I):
+        clib.assume_world(I)
+        results = {'A': mk_state(I, 'A', 'container', 'Aend'), 'B': mk_state(I, 'B', 'container', 'Bend'),
+                   'P': mk_state(I, 'P', 'plate', 'Pend')}
+        steps = SymList(tag='steps')
+        I.assume(steps.n >= 0)
+        r = mk_recipe(I, [], results, {'all': SliceV(None, None, None), 'stage': SliceV(z3.Int('stage_from'), z3.Int('stage_to'), None)})
+        r.fields['steps'] = steps
+        steps.owner = r
+        I.__dict__['_queried'] = None
+        I.__dict__['_step_shapes'] = STEP_SHAPES
+
+        def contribution(interp, g):
+            inflow, outflow = z3.RealVal(0), z3.RealVal(0)
+            to0, frm0 = g.fields['to'][0], g.fields['frm'][0]
+            if to0 is not None and to0.fields['name'] == 'A':
+                a, b = total_in(interp, g.fields['to'][0], unit)[0], total_in(interp, g.fields['to'][1], unit)[0]
+                if isinstance(g.fields['trash'], SymMap):
+                    # a discarding step: out += what it discarded (= what the container lost, BOOK) when it discarded anything
+                    outflow = outflow + (a - b)
+                else:
+                    inflow = inflow + (b - a)
+            if frm0 is not None and frm0.fields['name'] == 'A':
+                a, b = total_in(interp, g.fields['frm'][0], unit)[0], total_in(interp, g.fields['frm'][1], unit)[0]
+                outflow = outflow + (a - b)
+            return {'in': inflow, 'out': outflow}
+        handler, TOTALS, ps = induction_loop(I, contribution, 'FLOW')
+        ps('in'), ps('out')
+        I.__dict__.setdefault('list_loop_handlers', {})['list:steps'] = handler
+        I.writes.clear()
+        tf = 'all' if I.choose(2, 'whole recipe / a named stage') == 0 else 'stage'
+        out = vc.call(I, 'Recipe.get_container_flows', [r, results['A'], tf, unit])
+        I.oblige('frame', len(I.writes) == 0, 'property')
+        if out.kind != 'return':
+            I.oblige(f'safe[{out.exc.cls}]', False, 'property', note=f'{out.exc.cls} at line {out.exc.lineno} in get_container_flows')
+            return out
+        fl = out.value
+        prec = I.cfg.data['precisions'].get(unit, I.cfg.data['precisions']['default'])
+        ok = isinstance(fl, dict) and set(fl) == {'in', 'out'} and all(is_num(fl[k_]) for k_ in fl)
+        if not ok:
+            I.oblige('ensures[in]', False, 'property', note=f'result {fl!r}')
+            return out
+        for k_ in ('in', 'out'):
+            I.oblige(f'ensures[{k_}]', real(fl[k_]) == B.rnd(z3.IntVal(prec), TOTALS[k_]), 'property',
+                     note=f"flows['{k_}'] = sum over the steps of the timeframe of the specified per-step {k_}flow, rounded for display")
+        return out
+    n_step = 0
+    for I, out in vc.explore(body, contracts=clib.contracts(), max_paths=400):
+        if isinstance(out, vc.Outcome) and out.kind == 'unsupported':
+            res.append(vc.unsupported_result(name + 'unsupported', case, out.note))
+            continue
+        rs = vc.discharge(I, name, case, 15000, ladder=clib.ladder, inputs={'placeholder': z3.RealVal(0)},
+                          replay_fn=lambda mv, ob: flows_replay(unit, ob.name))
+        n_step += sum(1 for x in rs if x['name'].endswith('.step'))
+        res += rs
+    res = clib.dedupe(res)
+    if not any(x['verdict'] == 'unsupported' for x in res) and n_step == 0:
+        res.append(vc.unsupported_result(name + 'unsupported', case, 'the step loop was never reached (no induction step generated)'))
+    return native_refute_unknowns(res, flows_replay(unit, 'undecided clauses'))
 
 
 def native_refute_unknowns(res, jobs):
